@@ -89,12 +89,6 @@ Proof. intros. eapply (proj1 sval_mono_all); eauto. Qed.
 
 (* ---- strict RFC 8259 (what encoding/json.Valid accepts, UTF-8 aside), indexed by nesting depth ------ *)
 
-Definition is_hex (c : N) : bool :=
-  is_digit c || ((65 <=? c) && (c <=? 70)) || ((97 <=? c) && (c <=? 102)).
-
-Definition simple_escape (c : N) : bool :=
-  (c =? 34) || (c =? 92) || (c =? 47) || (c =? 98) || (c =? 102) || (c =? 110) || (c =? 114) || (c =? 116).
-
 Inductive strict_body : list N -> Prop :=
 | stb_nil : strict_body []
 | stb_char : forall c b, c <> 34 -> c <> 92 -> 32 <= c -> strict_body b -> strict_body (c :: b)
